@@ -66,12 +66,20 @@ def gen_history(rng, tier, bound=False):
         pool.append((args, kw))
         if nk == 2 and rng.random() < 0.5:
             pool.append((args, tuple(reversed(kw))))          # same keywords, other order
-        if na and rng.random() < 0.4:                         # equal-but-different-type variant
-            alt = {1: 1.0, 1.0: True, True: 1, 0: False, 2: 2.0, 2.0: 2, (1, 2): (1.0, 2), "a": "a"}
-            pool.append((tuple(alt.get(v, v) if not isinstance(v, tuple) or v in alt else v for v in args), kw))
+        if (na or nk) and rng.random() < 0.5:                 # equal-but-different-type variant (positional and keyword values)
+            def alt(v):
+                table = [(1, 1.0), (1.0, True), (True, 1), (0, False), (False, 0), (2, 2.0), (2.0, 2), ((1, 2), (1.0, 2))]
+                for x, y in table:
+                    if type(x) is type(v) and x == v:
+                        return y
+                return v
+            pool.append((tuple(alt(v) for v in args), tuple((k_, alt(v)) for k_, v in kw)))
     ops = []
+    with_discard = rng.random() < 0.3
     for _ in range(nops):
         r = rng.random()
+        if r >= 0.92 and not with_discard:
+            r = rng.random() * 0.92
         if r < 0.72:
             ops.append(("call",) + rng.choice(pool))
         elif r < 0.80:
@@ -231,7 +239,7 @@ def run(tier, seed):
     rep = Report("C10", tier, seed)
     proofs_ok = proof_stage(rep, "C10")
     rng = random.Random(seed)
-    n = 500 if tier == "quick" else 20000
+    n = 1500 if tier == "quick" else 30000
     texts, fails_n = [], 0
     dist = {}
     for i in range(n):
